@@ -13,6 +13,11 @@ try:
 except OSError:
     pass
 checks, na, served = [], [], []
+FINDINGS = json.load(open(os.path.join(ROOT, "known_findings.json")))["findings"]
+
+
+def open_findings(pid):
+    return [f["id"] for f in FINDINGS if f.get("status", "open").startswith("open") and pid in (f.get("properties") or [f.get("property")])]
 for p in props:
     pid = p["id"]
     path = os.path.join(ROOT, "props", pid + ".py")
@@ -37,7 +42,9 @@ for p in props:
             "design_ref": f"DESIGN.md section 7 / {pid}",
         },
         "level_note": ("Trusted: pyvc's encoding of Python (DESIGN 3.2), z3/cvc5, assumed contracts of library/boundary functions and every clause listed under "
-                       "coverage.trusted_base / assumptions in the evidence. " + " | ".join(prop.get("assumptions", [])))[:2500],
+                       "coverage.trusted_base / assumptions in the evidence. " + " | ".join(prop.get("assumptions", []))
+                       + ((" | OPEN FINDINGS " + ", ".join(open_findings(pid)) + ": the property does not hold on the inputs recorded in known_findings.json; the check prints "
+                           "KNOWN-FINDING lines for them and their obligations are set aside (not counted as discharged); everything else is proved.") if open_findings(pid) else ""))[:2500],
         "technique": "contract-based deductive verification: sidecar pre/postconditions, loop invariants, frames and ghost state on the real functions; VCs generated from the "
                      "real AST and discharged by z3 (cvc5 second); run-time evaluation of the same contracts on the real code as bounded stand-in and replay",
     })
